@@ -96,6 +96,7 @@ static void DictionaryFreeze()
 {
 	ScriptFrame *vframe = ScriptFrame::GetCurrentFrame();
 	Dictionary::Ptr self = static_cast<Dictionary::Ptr>(vframe->Self);
+	REQUIRE_NOT_NULL(self);
 	self->Freeze();
 }
 
